@@ -3,6 +3,8 @@ import os, re, sys
 sys.path.insert(0, os.path.dirname(os.path.abspath(__file__)))
 import vlib, gen_mhupdate
 
+THMS_TAIL = ["IsalVerif.GenProps.MhTail.all_canon", "IsalVerif.GenProps.MhTail.all_count", "IsalVerif.GenProps.MhTail.mhtail_current",
+             "IsalVerif.MhTailC.canon_tail"]
 THMS = ["IsalVerif.GenProps.MhUpdate.all_canon", "IsalVerif.GenProps.MhUpdate.all_count",
         "IsalVerif.GenProps.MhUpdate.mhupdate_current", "IsalVerif.MhC.canon_mh_update"]
 
@@ -17,6 +19,19 @@ def obligations(chk, tier):
     chk.oblige("translator: %d instances of the mh_sha1 / mh_sha256 update template -> Gen/MhUpdate.lean" % len(rows), bool(rows) and not gen_err, gen_err)
     failed = vlib.lean_obligations(chk, "IsalVerif.GenProps.MhUpdate", THMS) if rows else [("gen_mhupdate", gen_err)]
     chk.cov["mh_update"] = {"functions": len(rows), "theorems": THMS}
+    try:
+        trows = gen_mhupdate.main_tail([os.path.join(b, "src"), vlib.LEAN])
+        terr = ""
+    except Exception as e:
+        trows, terr = [], str(e)[:300]
+    chk.oblige("translator: %d instances of the mh_sha1 / mh_sha256 tail function -> Gen/MhTail.lean" % len(trows), bool(trows) and not terr, terr)
+    tfailed = vlib.lean_obligations(chk, "IsalVerif.GenProps.MhTail", THMS_TAIL) if trows else [("gen_mhupdate(tail)", terr)]
+    chk.cov["mh_tail"] = {"functions": len(trows), "theorems": THMS_TAIL}
+    for name, detail in tfailed:
+        chk.violation("Lean obligation no longer checks: %s" % name,
+                      {"kind": "obligation", "obligation": name, "detail": detail,
+                       "note": "a tail function (padding of the multi-hash stream) is no longer the proved one; the implementation is "
+                               "searched by the correspondence sweep of this check"}, no_input=True)
     if failed:
         src = ("import IsalVerif.Gen.MhUpdate\nopen IsalVerif.MhC\n"
                "#eval (IsalVerif.Gen.MhUpdate.all.filter fun x => !decide (x.prog = canon)).map (·.fn)\n")
@@ -31,4 +46,4 @@ def obligations(chk, tier):
                            "note": "the translated function differs from MhC.canon (or calls another family's block function); the "
                                    "implementation is searched by the correspondence sweep of this check"},
                           no_input=True, match={"fn": f, "monitor": "mh-update"})
-    return not failed
+    return not failed and not tfailed
